@@ -40,6 +40,76 @@ def _can_race(c):
     return False
 
 
+def _crash_site(out):
+    """If the test process was taken down by a Go panic / fatal error: (who, frame, text) where who is "driver"
+    when the first frame of package gocql on the crashing goroutine's stack is repository code, "harness" when it is
+    one of the overlaid zz_vf_ files; None when the output shows no crash."""
+    m = re.search(r"^(panic: .*|fatal error: .*)$", out, re.M)
+    if not m:
+        return None
+    tail = out[m.start():]
+    g = re.search(r"^goroutine \d+ \[running[^\]]*\]:\n((?:.*\n)+?)(?:\n|\Z)", tail, re.M)
+    block = g.group(1) if g else tail
+    frames = re.findall(r"^(\S.*?)(?:\(.*\))?\n\t(\S+?):(\d+)", block, re.M)
+    for fn, path, line in frames:
+        if "gocql" not in fn:
+            continue                      # runtime, sync, testing ...
+        base = os.path.basename(path)
+        fn = fn.split("gocql/gocql.")[-1].split("gocql.")[-1]
+        if base.startswith("zz_vf_"):
+            return "harness", "%s (%s:%s)" % (fn, base, line), tail[:3000]
+        return "driver", "%s (%s:%s)" % (fn, base, line), tail[:3000]
+    return "harness", "no gocql frame", tail[:3000]
+
+
+def _driver_died(ctx, binary, out, byrun, byid):
+    """The test process died while driving the iterations. Returns True when a violation was recorded."""
+    site = _crash_site(out)
+    if site is None or site[0] != "driver":
+        return False
+    who, frame, text = site
+    cands = []
+    for f in sorted(os.listdir(ctx.tmp)):
+        if f.startswith("c15_progress_"):
+            try:
+                cands.append(int(open(os.path.join(ctx.tmp, f)).read().strip()))
+            except ValueError:
+                pass
+    # which of the jobs that were under way does it? each alone in a child process, a few attempts (the crash may
+    # sit in the prefetch goroutine and need its timing)
+    culprit, ctext = None, text
+    for job in cands:
+        if job not in byrun:
+            continue
+        one = os.path.join(ctx.tmp, "c15_one.ndjson")
+        for attempt in range(3):
+            r = dict(byrun[job])
+            if attempt:
+                r["sched"] = attempt
+            vf.write_ndjson(one, [r])
+            rc, o = vf.run_gotest(ctx, binary, "^TestVfC15Run$", env={"VF_RUNS": one, "VF_WORKERS": 1}, timeout=300, check=False)
+            s2 = _crash_site(o)
+            if s2 and s2[0] == "driver":
+                culprit, frame, ctext = byrun[job], s2[1], s2[2]
+                break
+        if culprit:
+            break
+    fn = frame.split(" (")[0]
+    if culprit:
+        what = ("the driver took the process down (%s) while iterating: %s kind=%s mode=%s pages=%s prefetch=%s/4 fail=%s "
+                "prep=%s skip=%s plan=%s" % (frame, "job %d" % culprit["run"], culprit["kind"], culprit["mode"], culprit["pages"],
+                                            culprit["q"], culprit["fail"], culprit["prep"], culprit["skip"], culprit["plan"]))
+        detail = dict(case=byid[culprit["id"]], run=culprit, stack=ctext)
+    else:
+        what = ("the driver took the process down (%s) while iterating one of the jobs %s (not reproduced in isolation: "
+                "timing dependent)" % (frame, cands))
+        detail = dict(candidates=[byrun[j] for j in cands if j in byrun], stack=ctext)
+    ctx.violation("driver-crashed/" + fn, what, detail)
+    ctx.cov = dict(states=0, transitions=0, traces_validated_against_impl=0, driver_crashed=True,
+                   samples=[dict(crash=frame, case=(culprit or {}))])
+    return True
+
+
 def _monitor(ctx, path):
     r = vf.run_tlc(ctx, "Trace_Paging", "Trace_Paging.cfg", workers=1, heap="3g", timeout=1500, env={"VF_TRACE": path},
                    deadlock=False, name="mon_" + os.path.basename(path), quiet=True)
@@ -107,9 +177,16 @@ def run(ctx):
     # ---- 3. the real driver
     binary = vf.build_gotest(ctx, ".", ["common", "c15"])
     nshards = 8 if quick else 16
-    rc, out = vf.run_gotest(ctx, binary, "^TestVfC15Run$", env={"VF_RUNS": rp, "VF_WORKERS": nshards}, timeout=1500)
+    rc, out = vf.run_gotest(ctx, binary, "^TestVfC15Run$", env={"VF_RUNS": rp, "VF_WORKERS": nshards}, timeout=1500, check=False)
+    if rc in (124, 137):
+        raise vf.Inconclusive("the driver run timed out:\n" + out[-3000:])
     m = re.search(r"^VFSUMMARY (.*)$", out, re.M)
     if not m or "--- PASS" not in out:
+        # a panic in a goroutine of the driver's (the prefetch) cannot be recovered by the harness: the child process
+        # dies. That is the driver failing to iterate (violation); anything else is the machinery (exit 2).
+        if _driver_died(ctx, binary, out, byrun, byid):
+            ctx.cov["states"], ctx.cov["transitions"] = states, trans
+            return
         raise vf.Inconclusive("the driver run did not complete:\n" + out[-3000:])
     summ = json.loads(m.group(1))
     ctx.log("driver: %s" % summ)
